@@ -53,7 +53,8 @@ Inductive event :=
 | ESysShut (ans : Z)                      (* shutdown(2) was called and returned ans (0 / -errno) *)
 | EShutCb (status : Z)
 | ECloseCb
-| EQ (qsz : N).                           (* uv_stream_get_write_queue_size after a top-level step *)
+| EQ (qsz : N)
+| EConnCb (status : Z).                   (* connect_cb *)                           (* uv_stream_get_write_queue_size after a top-level step *)
 
 Record st := mkSt {
   wq : list req;        (* stream->write_queue *)
@@ -74,30 +75,65 @@ Record st := mkSt {
   pollw : list bool;    (* per loop iteration: does the kernel report the fd writable *)
   next_id : nat;
   cbn : nat;            (* callbacks run so far *)
-  tr : list event       (* newest first *)
+  tr : list event;      (* newest first *)
+  connecting : bool;    (* stream->connect_req != NULL *)
+  derr : Z;             (* stream->delayed_error (0 or -errno) *)
+  sockerr : list Z      (* answers of getsockopt(SO_ERROR) still to come (errno values, 115 = EINPROGRESS) *)
 }.
 
-Definition set_wq v s := mkSt v (cq s) (pq s) (wqs s) (shutreq s) (writable s) (shut s) (closing s) (closed s) (blocking s) (fdopen s) (armed s) (fed s) (oracle s) (shutans s) (pollw s) (next_id s) (cbn s) (tr s).
-Definition set_cq v s := mkSt (wq s) v (pq s) (wqs s) (shutreq s) (writable s) (shut s) (closing s) (closed s) (blocking s) (fdopen s) (armed s) (fed s) (oracle s) (shutans s) (pollw s) (next_id s) (cbn s) (tr s).
-Definition set_pq v s := mkSt (wq s) (cq s) v (wqs s) (shutreq s) (writable s) (shut s) (closing s) (closed s) (blocking s) (fdopen s) (armed s) (fed s) (oracle s) (shutans s) (pollw s) (next_id s) (cbn s) (tr s).
-Definition set_wqs v s := mkSt (wq s) (cq s) (pq s) v (shutreq s) (writable s) (shut s) (closing s) (closed s) (blocking s) (fdopen s) (armed s) (fed s) (oracle s) (shutans s) (pollw s) (next_id s) (cbn s) (tr s).
-Definition set_shutreq v s := mkSt (wq s) (cq s) (pq s) (wqs s) v (writable s) (shut s) (closing s) (closed s) (blocking s) (fdopen s) (armed s) (fed s) (oracle s) (shutans s) (pollw s) (next_id s) (cbn s) (tr s).
-Definition set_writable v s := mkSt (wq s) (cq s) (pq s) (wqs s) (shutreq s) v (shut s) (closing s) (closed s) (blocking s) (fdopen s) (armed s) (fed s) (oracle s) (shutans s) (pollw s) (next_id s) (cbn s) (tr s).
-Definition set_shut v s := mkSt (wq s) (cq s) (pq s) (wqs s) (shutreq s) (writable s) v (closing s) (closed s) (blocking s) (fdopen s) (armed s) (fed s) (oracle s) (shutans s) (pollw s) (next_id s) (cbn s) (tr s).
-Definition set_closing v s := mkSt (wq s) (cq s) (pq s) (wqs s) (shutreq s) (writable s) (shut s) v (closed s) (blocking s) (fdopen s) (armed s) (fed s) (oracle s) (shutans s) (pollw s) (next_id s) (cbn s) (tr s).
-Definition set_closed v s := mkSt (wq s) (cq s) (pq s) (wqs s) (shutreq s) (writable s) (shut s) (closing s) v (blocking s) (fdopen s) (armed s) (fed s) (oracle s) (shutans s) (pollw s) (next_id s) (cbn s) (tr s).
-Definition set_fdopen v s := mkSt (wq s) (cq s) (pq s) (wqs s) (shutreq s) (writable s) (shut s) (closing s) (closed s) (blocking s) v (armed s) (fed s) (oracle s) (shutans s) (pollw s) (next_id s) (cbn s) (tr s).
-Definition set_armed v s := mkSt (wq s) (cq s) (pq s) (wqs s) (shutreq s) (writable s) (shut s) (closing s) (closed s) (blocking s) (fdopen s) v (fed s) (oracle s) (shutans s) (pollw s) (next_id s) (cbn s) (tr s).
-Definition set_fed v s := mkSt (wq s) (cq s) (pq s) (wqs s) (shutreq s) (writable s) (shut s) (closing s) (closed s) (blocking s) (fdopen s) (armed s) v (oracle s) (shutans s) (pollw s) (next_id s) (cbn s) (tr s).
-Definition set_oracle v s := mkSt (wq s) (cq s) (pq s) (wqs s) (shutreq s) (writable s) (shut s) (closing s) (closed s) (blocking s) (fdopen s) (armed s) (fed s) v (shutans s) (pollw s) (next_id s) (cbn s) (tr s).
-Definition set_pollw v s := mkSt (wq s) (cq s) (pq s) (wqs s) (shutreq s) (writable s) (shut s) (closing s) (closed s) (blocking s) (fdopen s) (armed s) (fed s) (oracle s) (shutans s) v (next_id s) (cbn s) (tr s).
-Definition set_next_id v s := mkSt (wq s) (cq s) (pq s) (wqs s) (shutreq s) (writable s) (shut s) (closing s) (closed s) (blocking s) (fdopen s) (armed s) (fed s) (oracle s) (shutans s) (pollw s) v (cbn s) (tr s).
-Definition set_cbn v s := mkSt (wq s) (cq s) (pq s) (wqs s) (shutreq s) (writable s) (shut s) (closing s) (closed s) (blocking s) (fdopen s) (armed s) (fed s) (oracle s) (shutans s) (pollw s) (next_id s) v (tr s).
-Definition ev (e : event) s := mkSt (wq s) (cq s) (pq s) (wqs s) (shutreq s) (writable s) (shut s) (closing s) (closed s) (blocking s) (fdopen s) (armed s) (fed s) (oracle s) (shutans s) (pollw s) (next_id s) (cbn s) (e :: tr s).
+Definition set_wq v s := mkSt v (cq s) (pq s) (wqs s) (shutreq s) (writable s) (shut s) (closing s) (closed s) (blocking s) (fdopen s) (armed s) (fed s) (oracle s) (shutans s) (pollw s) (next_id s) (cbn s) (tr s) (connecting s) (derr s) (sockerr s).
+Definition set_cq v s := mkSt (wq s) v (pq s) (wqs s) (shutreq s) (writable s) (shut s) (closing s) (closed s) (blocking s) (fdopen s) (armed s) (fed s) (oracle s) (shutans s) (pollw s) (next_id s) (cbn s) (tr s) (connecting s) (derr s) (sockerr s).
+Definition set_pq v s := mkSt (wq s) (cq s) v (wqs s) (shutreq s) (writable s) (shut s) (closing s) (closed s) (blocking s) (fdopen s) (armed s) (fed s) (oracle s) (shutans s) (pollw s) (next_id s) (cbn s) (tr s) (connecting s) (derr s) (sockerr s).
+Definition set_wqs v s := mkSt (wq s) (cq s) (pq s) v (shutreq s) (writable s) (shut s) (closing s) (closed s) (blocking s) (fdopen s) (armed s) (fed s) (oracle s) (shutans s) (pollw s) (next_id s) (cbn s) (tr s) (connecting s) (derr s) (sockerr s).
+Definition set_shutreq v s := mkSt (wq s) (cq s) (pq s) (wqs s) v (writable s) (shut s) (closing s) (closed s) (blocking s) (fdopen s) (armed s) (fed s) (oracle s) (shutans s) (pollw s) (next_id s) (cbn s) (tr s) (connecting s) (derr s) (sockerr s).
+Definition set_writable v s := mkSt (wq s) (cq s) (pq s) (wqs s) (shutreq s) v (shut s) (closing s) (closed s) (blocking s) (fdopen s) (armed s) (fed s) (oracle s) (shutans s) (pollw s) (next_id s) (cbn s) (tr s) (connecting s) (derr s) (sockerr s).
+Definition set_shut v s := mkSt (wq s) (cq s) (pq s) (wqs s) (shutreq s) (writable s) v (closing s) (closed s) (blocking s) (fdopen s) (armed s) (fed s) (oracle s) (shutans s) (pollw s) (next_id s) (cbn s) (tr s) (connecting s) (derr s) (sockerr s).
+Definition set_closing v s := mkSt (wq s) (cq s) (pq s) (wqs s) (shutreq s) (writable s) (shut s) v (closed s) (blocking s) (fdopen s) (armed s) (fed s) (oracle s) (shutans s) (pollw s) (next_id s) (cbn s) (tr s) (connecting s) (derr s) (sockerr s).
+Definition set_closed v s := mkSt (wq s) (cq s) (pq s) (wqs s) (shutreq s) (writable s) (shut s) (closing s) v (blocking s) (fdopen s) (armed s) (fed s) (oracle s) (shutans s) (pollw s) (next_id s) (cbn s) (tr s) (connecting s) (derr s) (sockerr s).
+Definition set_blocking v s := mkSt (wq s) (cq s) (pq s) (wqs s) (shutreq s) (writable s) (shut s) (closing s) (closed s) v (fdopen s) (armed s) (fed s) (oracle s) (shutans s) (pollw s) (next_id s) (cbn s) (tr s) (connecting s) (derr s) (sockerr s).
+Definition set_fdopen v s := mkSt (wq s) (cq s) (pq s) (wqs s) (shutreq s) (writable s) (shut s) (closing s) (closed s) (blocking s) v (armed s) (fed s) (oracle s) (shutans s) (pollw s) (next_id s) (cbn s) (tr s) (connecting s) (derr s) (sockerr s).
+Definition set_armed v s := mkSt (wq s) (cq s) (pq s) (wqs s) (shutreq s) (writable s) (shut s) (closing s) (closed s) (blocking s) (fdopen s) v (fed s) (oracle s) (shutans s) (pollw s) (next_id s) (cbn s) (tr s) (connecting s) (derr s) (sockerr s).
+Definition set_fed v s := mkSt (wq s) (cq s) (pq s) (wqs s) (shutreq s) (writable s) (shut s) (closing s) (closed s) (blocking s) (fdopen s) (armed s) v (oracle s) (shutans s) (pollw s) (next_id s) (cbn s) (tr s) (connecting s) (derr s) (sockerr s).
+Definition set_oracle v s := mkSt (wq s) (cq s) (pq s) (wqs s) (shutreq s) (writable s) (shut s) (closing s) (closed s) (blocking s) (fdopen s) (armed s) (fed s) v (shutans s) (pollw s) (next_id s) (cbn s) (tr s) (connecting s) (derr s) (sockerr s).
+Definition set_shutans v s := mkSt (wq s) (cq s) (pq s) (wqs s) (shutreq s) (writable s) (shut s) (closing s) (closed s) (blocking s) (fdopen s) (armed s) (fed s) (oracle s) v (pollw s) (next_id s) (cbn s) (tr s) (connecting s) (derr s) (sockerr s).
+Definition set_pollw v s := mkSt (wq s) (cq s) (pq s) (wqs s) (shutreq s) (writable s) (shut s) (closing s) (closed s) (blocking s) (fdopen s) (armed s) (fed s) (oracle s) (shutans s) v (next_id s) (cbn s) (tr s) (connecting s) (derr s) (sockerr s).
+Definition set_next_id v s := mkSt (wq s) (cq s) (pq s) (wqs s) (shutreq s) (writable s) (shut s) (closing s) (closed s) (blocking s) (fdopen s) (armed s) (fed s) (oracle s) (shutans s) (pollw s) v (cbn s) (tr s) (connecting s) (derr s) (sockerr s).
+Definition set_cbn v s := mkSt (wq s) (cq s) (pq s) (wqs s) (shutreq s) (writable s) (shut s) (closing s) (closed s) (blocking s) (fdopen s) (armed s) (fed s) (oracle s) (shutans s) (pollw s) (next_id s) v (tr s) (connecting s) (derr s) (sockerr s).
+Definition set_connecting v s := mkSt (wq s) (cq s) (pq s) (wqs s) (shutreq s) (writable s) (shut s) (closing s) (closed s) (blocking s) (fdopen s) (armed s) (fed s) (oracle s) (shutans s) (pollw s) (next_id s) (cbn s) (tr s) v (derr s) (sockerr s).
+Definition set_derr v s := mkSt (wq s) (cq s) (pq s) (wqs s) (shutreq s) (writable s) (shut s) (closing s) (closed s) (blocking s) (fdopen s) (armed s) (fed s) (oracle s) (shutans s) (pollw s) (next_id s) (cbn s) (tr s) (connecting s) v (sockerr s).
+Definition set_sockerr v s := mkSt (wq s) (cq s) (pq s) (wqs s) (shutreq s) (writable s) (shut s) (closing s) (closed s) (blocking s) (fdopen s) (armed s) (fed s) (oracle s) (shutans s) (pollw s) (next_id s) (cbn s) (tr s) (connecting s) (derr s) v.
+Definition ev (e : event) s := mkSt (wq s) (cq s) (pq s) (wqs s) (shutreq s) (writable s) (shut s) (closing s) (closed s) (blocking s) (fdopen s) (armed s) (fed s) (oracle s) (shutans s) (pollw s) (next_id s) (cbn s) (e :: tr s) (connecting s) (derr s) (sockerr s).
 
-(* a stream just opened with uv_pipe_open on a read-write descriptor *)
-Definition init (blk : bool) (o : list answer) (sa : Z) (pw : list bool) : st :=
-  mkSt [] [] [] 0 false true false false false blk true false false o sa pw O O [].
+(* How the stream came to be.  [None]: opened connected with uv_pipe_open /
+   uv_tcp_open on a read-write descriptor.  [Some (tcp, cres, so)]: right after
+   uv_tcp_connect (tcp = true) / uv_pipe_connect (tcp = false) on a fresh handle,
+   where connect(2) returned [cres] (0 or -errno) and [so] are the answers
+   getsockopt(SO_ERROR) will give.
+   uv__tcp_connect: flags READABLE|WRITABLE set by maybe_new_socket; EINPROGRESS is
+   no error, ECONNREFUSED becomes delayed_error; connect_req set; POLLOUT started;
+   uv__io_feed when delayed_error.  (Other errnos make uv_tcp_connect fail: no
+   connect pending - not a start state.)
+   uv_pipe_connect2: on r == -1 && errno != EINPROGRESS: delayed_error = -errno, the
+   flags are not set, POLLOUT not started, uv__io_feed; else uv__stream_open sets
+   READABLE|WRITABLE and POLLOUT is started. *)
+Definition conn_cfg := option (bool * Z * list Z).
+
+Definition EINPROGRESS : Z := 115%Z.
+Definition ECONNREFUSED : Z := 111%Z.
+
+Definition init (blk : bool) (o : list answer) (sa : Z) (pw : list bool) (c : conn_cfg) : st :=
+  match c with
+  | None => mkSt [] [] [] 0 false true false false false blk true false false o sa pw O O [] false 0%Z []
+  | Some (tcp, cres, so) =>
+      let inprog := Z.eqb cres 0 || Z.eqb cres (- EINPROGRESS) in
+      if tcp then
+        let de := if inprog then 0%Z else cres in
+        mkSt [] [] [] 0 false true false false false blk true true (negb (Z.eqb de 0)) o sa pw O O [] true de so
+      else if inprog then
+        mkSt [] [] [] 0 false true false false false blk true true false o sa pw O O [] true 0%Z so
+      else
+        mkSt [] [] [] 0 false false false false false blk true false true o sa pw O O [] true cres so
+  end.
 
 Fixpoint sumN (l : list N) : N :=
   match l with [] => 0 | x :: t => x + sumN t end.
@@ -218,7 +254,8 @@ Definition api_write (s : st) (bufs : list N) : st :=
       let empty_queue := wqs s =? 0 in
       let r := mkReq id total bufs O 0 0%Z false in
       let s1 := set_wq (wq s ++ [r]) (set_wqs (wqs s + total) s) in
-      let s2 := if empty_queue then uv_write_queue s1 else set_armed true s1 in
+      let s2 := if connecting s1 then s1                 (* still connecting, do nothing *)
+                else if empty_queue then uv_write_queue s1 else set_armed true s1 in
       ev (ERet id 0%Z) s2
   end.
 
@@ -226,7 +263,7 @@ Definition api_write (s : st) (bufs : list N) : st :=
 Definition api_try (s : st) (bufs : list N) : st :=
   let id := next_id s in
   let s := ev (ETry id (sumN bufs)) (set_next_id (S id) s) in
-  if negb (wqs s =? 0) then ev (ETryRet id UV_EAGAIN) s
+  if connecting s || negb (wqs s =? 0) then ev (ETryRet id UV_EAGAIN) s
   else match check_before_write s with
   | Some e => ev (ETryRet id e) s
   | None =>
@@ -302,20 +339,43 @@ Definition drain (s : st) : st :=
       else run_cb (ev (EShutCb (shutans s3)) s3)
   else s1.
 
-(* uv__stream_io with POLLOUT (no connect_req, nothing to read) *)
+(* uv__stream_flush_write_queue(stream, UV_ECANCELED) *)
+Definition flush (s : st) : st :=
+  set_wq [] (set_cq (cq s ++ map (set_err UV_ECANCELED) (wq s)) s).
+
+(* uv__stream_connect *)
+Definition stream_connect (s : st) : st :=
+  let '(error, s1) :=
+    if negb (Z.eqb (derr s) 0) then (derr s, set_derr 0%Z s)
+    else match sockerr s with
+         | [] => (0%Z, s)
+         | e :: t => ((- e)%Z, set_sockerr t s)
+         end in
+  if Z.eqb error (- EINPROGRESS) then s1
+  else
+    let s2 := set_connecting false s1 in
+    let s3 := if (error <? 0)%Z || match wq s2 with [] => true | _ => false end
+              then set_armed false s2 else s2 in            (* uv__io_stop(POLLOUT) *)
+    let s4 := run_cb (ev (EConnCb error) s3) in             (* req->cb(req, error) *)
+    if negb (fdopen s4) then s4                             (* closed in the callback *)
+    else if (error <? 0)%Z then write_callbacks (flush s4)
+    else s4.
+
+(* uv__stream_io with POLLOUT (nothing to read) *)
 Definition stream_io (s : st) : st :=
+  if connecting s then stream_connect s
+  else
   let s1 := uv_write_queue s in
   let s2 := write_callbacks s1 in
   (* if (uv__queue_empty(&write_queue) && uv__queue_empty(&write_completed_queue)) uv__drain() *)
   match wq s2, cq s2 with [], [] => drain s2 | _, _ => s2 end.
 
-(* uv__stream_flush_write_queue(stream, UV_ECANCELED) *)
-Definition flush (s : st) : st :=
-  set_wq [] (set_cq (cq s ++ map (set_err UV_ECANCELED) (wq s)) s).
-
 (* uv__finish_close -> uv__stream_destroy, close_cb *)
 Definition destroy (s : st) : st :=
-  ev ECloseCb (drain (write_callbacks (flush (set_closed true s)))).
+  let s0 := set_closed true s in
+  let s1 := if connecting s0                                (* connect_req->cb(connect_req, UV_ECANCELED) *)
+            then run_cb (ev (EConnCb UV_ECANCELED) (set_connecting false s0)) else s0 in
+  ev ECloseCb (drain (write_callbacks (flush s1))).
 
 (* uv__run_pending for this watcher *)
 Definition run_pending (s : st) : st :=
